@@ -4,7 +4,7 @@ PROP = {
  'gen_modules': ['MetaConsts'],
  'streams': [
   {'name': 'setmeta', 'harness': 'umh_setmeta', 'driver': 'setmeta', 'timeout': {'quick': 300, 'thorough': 1500}},
-  {'name': 'setrepl', 'harness': 'umh_setrepl', 'driver': 'setrepl', 'timeout': {'quick': 300, 'thorough': 1800}},
+  {'name': 'setrepl', 'harness': 'umh_setrepl', 'driver': 'setrepl', 'timeout': {'quick': 300, 'thorough': 3000}},
  ],
  'assumptions': [
   'set_meta: everything after the host check runs under MetaManager.lock, so SETCLUSTER is a sequential machine '
@@ -61,7 +61,7 @@ CHECK = {
          'both roles, depend on that message alone. partial: with a forced message racing another caller the property '
          'is false of the code (finding F05a, proved witness + replay). Every run replays generated SETCLUSTER sequences '
          '(replies, UMCTL GETEPOCH, routing probes) and SETREPL schedules (2-4 OS threads parked at the four scheduling '
-         'points; thorough: all interleavings of three callers, ~86k schedules) against the model line by line.',
+         'points; thorough: all interleavings of three callers for three epoch/force patterns, ~50k schedules) against the model line by line.',
  'note': 'Trusted: Lean kernel; extractor shape checks; the scheduler harness; fingerprint probes. Not covered: migration '
          'tasks inside SETCLUSTER, replicator task traffic, forced concurrent SETREPL (known finding F05a).',
 }
